@@ -182,7 +182,7 @@ fn parse_number_internal(input: &str, default_radix: u32) -> Result<SimpleNumber
         Some(i) => {
             let part = &input[0..i];
             if part.starts_with("0") {
-                let trimmed = part.trim_matches('0');
+                let trimmed = part.trim_start_matches('0');
                 match u32::from_str(trimmed) {
                     Err(_) => Err(DataError::from(format!("Could not parse radix from {:?}", part)))?,
                     Ok(v) => {
